@@ -18,7 +18,8 @@ ID = "C01"
 LEVEL = "exploration"
 BATCH = 1
 TIMEOUT = 600
-REQUIRED_OBS = ["ydot_compared", "backend_dense", "backend_sparse", "backend_cusparse", "backend_odeint", "tag_bundled_primordial"]
+REQUIRED_OBS = ["ydot_compared", "backend_dense", "backend_sparse", "backend_cusparse", "backend_odeint", "tag_bundled_primordial", "tag_two_ice_groups", "tag_labelled_pairs",
+                "tag_spelling_upper_replace", "tag_ode_modifier", "tag_file_entry"]
 TIMEOUT = 3000
 RULE = ("seeded random abstract networks (species from compositions; reactions with 1-3 reactants incl. repeats, 0-5 "
         "products, catalysts, pseudo-reactants, duplicate reactions, isolated required species; entry through the API or "
@@ -91,7 +92,7 @@ def file_chunks(rng, net):
     return chunks
 
 
-def make_case(rng: random.Random, tier: str, thermal_p=0.25, mod_p=0.2, maxdeps=1, file_p=0.4, big=False) -> dict:
+def make_case(rng: random.Random, tier: str, thermal_p=0.25, mod_p=0.2, maxdeps=1, file_p=0.4, big=False, label_p=0.15, ice2_p=0.12) -> dict:
     nspec = rng.randint(3, 22 if big else 9)
     nreac = rng.randint(1, 60 if big else 14)
     net = chem.structural_network(rng, nspec, nreac, extra_isolated=rng.choice([0, 1, 2]), surface=rng.random() < 0.3)
@@ -103,7 +104,7 @@ def make_case(rng: random.Random, tier: str, thermal_p=0.25, mod_p=0.2, maxdeps=
             net = case["net"] = un
             case["spelling"] = "upper_replace"
             thermal_p = 0.0
-    if not case.get("spelling") and rng.random() < 0.15:
+    if not case.get("spelling") and rng.random() < label_p:
         # an excited species next to its ground state (H2* / H2) and a cyclic isomer next to the plain formula (c-C3H2 / C3H2):
         # different species, different slots, although the label characters cannot appear in an identifier
         by = {s_["name"]: s_ for s_ in net["species"]}
@@ -120,6 +121,21 @@ def make_case(rng: random.Random, tier: str, thermal_p=0.25, mod_p=0.2, maxdeps=
         used = {n for r in net["reactions"] for n in r["reactants"] + r["products"]} | set(net.get("required") or [])
         net["species"] = [by[n] for n in sorted(used)]
         case["labelled_pairs"] = True
+    if not case.get("spelling") and rng.random() < ice2_p:
+        # the same molecule as ice on two grain populations (#CO on group 0, #1CO on group 1): two species, two slots
+        by = {s_["name"]: s_ for s_ in net["species"]}
+        g = rng.choice([s_ for s_ in net["species"] if not s_["electron"] and not s_["surface"] and s_["charge"] == 0 and not s_["label"]] or [chem.make_species([("H", 2)])])
+        by.setdefault(g["name"], g)
+        ice0 = chem.make_species(chem._parts_of(g), surface=True)
+        ice1 = dict(ice0, name="#1" + ice0["name"][1:], alias="G1" + ice0["alias"][1:])
+        by.setdefault(ice0["name"], ice0)
+        by[ice1["name"]] = ice1
+        for res, prs in (([g["name"]], [ice0["name"]]), ([g["name"]], [ice1["name"]]), ([ice1["name"]], [g["name"]]), ([ice1["name"], ice1["name"]], [ice1["name"], g["name"]]),
+                         ([ice0["name"]], [g["name"]])):
+            net["reactions"].append({"reactants": res, "products": prs, "pseudo": None, "idx": len(net["reactions"]) + 1})
+        used = {n for r in net["reactions"] for n in r["reactants"] + r["products"]} | set(net.get("required") or [])
+        net["species"] = [by[n] for n in sorted(used)]
+        case["two_ice_groups"] = True
     if rng.random() < thermal_p:
         case["cooling"] = add_thermal(rng, net)
     if rng.random() < mod_p:
@@ -206,6 +222,8 @@ def tags_of(case) -> set:
         t.add("rate_modifier")
     if case.get("labelled_pairs"):
         t.add("labelled_pairs")
+    if case.get("two_ice_groups"):
+        t.add("two_ice_groups")
     if any(s["surface"] for s in case["net"]["species"]):
         t.add("ice_species")
     if case.get("entry") == "files":
@@ -225,7 +243,8 @@ def gen_cases(tier: str) -> list[dict]:
     for i in range(n):
         r = random.Random(rng.getrandbits(64))
         # strata: every 6th case has ODE modifiers, every 6th comes through files (the rest by the default probabilities)
-        cases.append(make_case(r, tier, big=(tier == "thorough" and i % 5 == 0), mod_p=(1.0 if i % 6 == 1 else 0.2), file_p=(1.0 if i % 6 == 2 else 0.4)))
+        cases.append(make_case(r, tier, big=(tier == "thorough" and i % 5 == 0), mod_p=(1.0 if i % 6 == 1 else 0.2), file_p=(1.0 if i % 6 == 2 else 0.4),
+                               label_p=(1.0 if i % 6 == 4 else 0.15), ice2_p=(1.0 if i % 6 == 3 else 0.12)))
     if True:
         cases.append({"net": {"species": [], "reactions": [], "required": []}, "alphas": [], "entry": "api",
                       "ys": [{"__TGAS__": 1e4}], "ks": [[1.25]], "special": "empty"})
